@@ -346,6 +346,20 @@ impl OrderBook {
     }
 }
 
+#[cfg(feature = "verif")]
+impl UistV1 {
+    /// Read-only snapshot for the verification harness: resting book in time priority, pending
+    /// buffer, next order id, trade log.
+    pub fn verif_snapshot(&self) -> (Vec<Order>, Vec<Order>, u64, Vec<Trade>) {
+        (
+            self.orderbook.inner.iter().cloned().collect(),
+            self.order_buffer.clone(),
+            self.orderbook.last_inserted,
+            self.trade_log.clone(),
+        )
+    }
+}
+
 #[cfg(test)]
 mod tests {
     use super::UistV1;
